@@ -23,7 +23,7 @@ ASSUMPTIONS = [
     "user-mapped exception classes are only generated in single-exception programs",
 ]
 
-PROG = st.one_of(P.programs(multi=True, expect=True, force=True, cleanup_depth=2, p_raise=6),
+PROG = st.one_of(P.programs(multi=True, expect=True, force=True, cleanup_depth=2, p_raise=6, extras=True),
                  P.programs(custom=True, cleanup_depth=1, p_raise=0))
 CASE = st.fixed_dictionaries({"prog": PROG, "flavour": st.sampled_from(["ext", "real", "ext"])})
 FAILING = {"addFailure", "addError", "addUnexpectedSuccess"}
